@@ -8,6 +8,7 @@ import (
 	"fmt"
 	"os"
 	"sort"
+	"strings"
 	"testing"
 
 	"github.com/cosmos/iavl"
@@ -45,8 +46,8 @@ func (m modelSnap) rng() string {
 
 type crashStats struct {
 	cuts, known, jlen int
-	interiorChecked  int
-	labels           map[string]bool
+	interiorChecked   int
+	labels            map[string]bool
 }
 
 var crashProfile = &Profile{MinSteps: 8, MaxSteps: 40, KeepFlush: true,
@@ -223,7 +224,10 @@ func crashOp(w *World, op Op) (v *Violation, st crashStats) {
 				}
 				continue
 			}
-			if interior && f7op && Open("F7") && f7Applies(pre, op) && !atNaturalBoundary(natural, ImageAt(base, journal, cut)) {
+			// (F7 is about the store a crash leaves behind: it cannot be loaded / lists an unreadable version / mixes two index
+			// states. A store that recovered to a clean old-or-new state and only then misbehaves when the operation is
+			// REPEATED is not that finding.)
+			if interior && f7op && Open("F7") && f7Applies(pre, op) && !strings.HasPrefix(x.Obs, "cut.retry") && !atNaturalBoundary(natural, ImageAt(base, journal, cut)) {
 				// known family: only the version being written / rolled back / deleted may be affected
 				if y := untouchedOK(ImageAt(base, journal, cut), pre, op, wv); y != nil {
 					y.Msg = tag + " " + y.Msg
